@@ -34,7 +34,14 @@ META = {
     "path, wider than 2.5e-3 source px (snap_affine shifts the grid map by up to 1e-3 px on purpose); 'intersects' is positive-area overlap (tiles touching a query "
     "only along an edge are not returned by the code and the test-suite pins that); doubles are sampled; lon/lat boxes of "
     "(nearly) global extent or containing a pole are only evaluated while known_findings.json has a 'tiles-query-global-box' "
-    "entry (on HEAD they raise GEOSException or return no tile for UTM / Albers / LAEA rasters: vertex-wise reprojection).",
+    "entry (on HEAD they raise GEOSException or return no tile for UTM / Albers / LAEA rasters: vertex-wise reprojection). "
+    " Modelled since the growth round: range_from_bbox / tiles for boxes carrying a CRS (corners through "
+    "~affine, any invertible affine; foreign CRS as a corner-wise parameter), the general path with the model's own candidate "
+    "ranges (gridIntersectGeneralR), rounding on mirrored grids, C12 o C04 link.  NOT mirrored in Lean: pyproj / "
+    "Geometry.to_crs(check_and_fix) and shapely predicates (parameters); GeoBoxBase.footprint(4326, 2) (padding, "
+    "densification), the `&` of the two footprints and the early `{}` for an empty intersection; GeoBox.project for general "
+    "geometries (only boxes); _check_linear's isinstance(GeoBox) / CRS-equality tests; BoundingBox.boundary (float32); "
+    "GCPGeoBox (non-linear) rasters; dict ordering of the result.",
     "technique": "Lean 4 proof over hand model + exhaustive/random differential correspondence with real code",
     "design_ref": "DESIGN.md §4 C12",
 }
@@ -338,6 +345,39 @@ def box_queries(R: Run, geom, GeoBox, GeoboxTiles, Affine):
         ys = sorted(q * rng.randint(-8, 4 * ny + 8) for _ in range(2))
         one((kind, sy, sx), xs[0], ys[0], xs[1], ys[1], "2d")
     one(("r", (20, 10), (20, 10)), 100, 100, 120, 120, "2d")
+    # world-space boxes (box with the CRS of the raster): corners through ~affine, exact for dyadic affines incl.
+    # mirrored and quarter-turn rotated grids; model op `rangew`, two-sided exact oracle through exact_ranges
+    for _ in range(R.pick(600, 6000)):
+        kind = rng.choice("rv")
+        pool = reg if kind == "r" else var
+        spec = (kind, rng.choice(pool), rng.choice(pool))
+        sc = rng.choice([1, 2, 0.5, 4, 0.25])
+        if rng.random() < 0.3:
+            W = Affine(0, sc * rng.choice([1, -1]), rng.randint(-40, 40) / 4, sc * rng.choice([1, -1]), 0, rng.randint(-40, 40) / 4)
+        else:
+            W = Affine(sc * rng.choice([1, -1]), 0, rng.randint(-40, 40) / 4, 0, sc * rng.choice([1, -1]), rng.randint(-40, 40) / 4)
+        gbt = mk_gbt(GeoBox, GeoboxTiles, spec, W)
+        ny, nx = gbt.base.shape
+        pxs = [Fraction(rng.randint(-8, 4 * nx + 8), 4) for _ in range(2)]
+        pys = [Fraction(rng.randint(-8, 4 * ny + 8), 4) for _ in range(2)]
+        ws = [W * (float(x), float(y)) for x in pxs for y in pys]
+        l, r_ = min(p_[0] for p_ in ws), max(p_[0] for p_ in ws)
+        b_, t_ = min(p_[1] for p_ in ws), max(p_[1] for p_ in ws)
+        bb = BoundingBox(l, b_, r_, t_, "EPSG:3857")
+        rr = []
+
+        def fw():
+            yy, xx = gbt.range_from_bbox(bb)
+            rr.append((yy, xx))
+            return f"{range_s(yy)} {range_s(xx)}"
+
+        R.corr(f"c12 rangew {gbt_tok(spec)} {aff_s(W)} {bbox_s(bb)}", fw,
+               sig="rangew|" + ("rot90" if W.a == 0 else "mirrored" if (W.a < 0 or W.e > 0) else "north-up"))
+        if rr:
+            want = exact_ranges(gbt, min(pxs), min(pys), max(pxs), max(pys))
+            R.oracle((range_s(rr[0][0]), range_s(rr[0][1])) == want, "range-from-bbox-not-exact",
+                     {"spec": spec, "W": aff_s(W), "world_bbox": [str(Fraction(v)) for v in (l, b_, r_, t_)]},
+                     f"ranges {rr[0]} but exact arithmetic gives {want}", sig="rangew2")
     # the same queries on DERIVED tilings (crop / clip not starting at tile 0), model = fresh tiling of the sub-chunks
     from odc.geo import roi as Rm
 
@@ -563,6 +603,14 @@ def grid_pairs(R: Run, geom, GeoBox, GeoboxTiles, Affine):
                 line = (f"c12 general {idxs_s(dc)} {list_s([bool_s(v) for v in df])} "
                         f"{'|'.join(scs) if scs else '[]'} {'|'.join(sfs) if sfs else '[]'}")
                 R.corr(line, f, sig=f"general|{tag}")
+                # the same through the model's own candidate ranges: pixel bounding boxes (exact value of the doubles
+                # the code floors / ceils) instead of candidate lists
+                fpb = dst.base.project(fp.boundingbox.polygon).boundingbox
+                exts = [bbox_s(src.base.project(dst[i].extent.boundingbox.polygon).boundingbox) for i, dj in zip(dc, df) if not dj]
+                line2 = (f"c12 generalr {gbt_tok(dspec)} {gbt_tok(sspec)} {bbox_s(fpb)} {list_s([bool_s(v) for v in df])} "
+                         f"{'|'.join(exts) if exts else '-'} {'|'.join(sfs) if sfs else '-'}")
+                R.corr(line2, lambda: deps_s(res[0]) if res else guarded(lambda: deps_s(dst.grid_intersect(src))),
+                       sig=f"generalr|{tag}")
             except Exception as e:  # pylint: disable=broad-except
                 R.oracle(False, "grid-intersect-raises", case, repr(e))
                 return
